@@ -307,6 +307,31 @@ func genFaults(h *H) {
 		}
 		h.tag("rfault:encoder-fragmentation")
 		h.Run(Case{Op: "rfault", A: map[string]string{"stack": "open-armored", "keys": ringKeysStr([][]byte{rsk}), "signers": "_", "ring": "_", "input": hx(rec.buf), "chunk": "4096", "segs": strings.Join(segs, ",")}})
+		// ... and the same text handed over whole by one Read (a bytes.Reader, a file): the fault then falls on a
+		// call at which every layer already holds all the data it needs
+		h.tag("rfault:all-at-once")
+		h.Run(Case{Op: "rfault", A: map[string]string{"stack": "open-armored", "keys": ringKeysStr([][]byte{rsk}), "signers": "_", "ring": "_", "input": hx(rec.buf), "chunk": "1048576"}})
+	}
+	// every decoder stack on short genuine messages of every length modulo the 32-byte armor block, handed over whole
+	for l := 0; l < 66; l += 1 + l/34*6 {
+		for _, p := range h.producersOfLen(l) {
+			stackBin := map[string]string{"enc": "open", "sc": "sc-open", "att": "verify", "det": ""}[p.name]
+			if stackBin == "" {
+				continue
+			}
+			at := map[string]saltpack.MessageType{"enc": saltpack.MessageTypeEncryption, "sc": saltpack.MessageTypeEncryption,
+				"att": saltpack.MessageTypeAttachedSignature}[p.name]
+			txt, _ := saltpack.Armor62Seal(p.wire, at, "")
+			a := map[string]string{"keys": keysOf(p), "signers": signersOf(p), "ring": signersOf(p), "chunk": "1048576"}
+			for _, st := range []struct{ stack, input string }{{stackBin, hx(p.wire)}, {stackBin + "-armored", hx([]byte(txt))}} {
+				b := map[string]string{"stack": st.stack, "input": st.input}
+				for k, v := range a {
+					b[k] = v
+				}
+				h.tag("rfault:all-at-once")
+				h.Run(Case{Op: "rfault", A: b})
+			}
+		}
 	}
 	h.res.ExhNote = "for each stream and message, a fault is injected at EVERY underlying Write (transient and sticky) / Read (alone transient, alone sticky, with data) call the fault-free run makes"
 }
